@@ -60,6 +60,9 @@ type Config struct {
 
 	// x/locking
 	MaxValidators int64                      // 0: module default (20)
+	// WallClockPayloads: BuildPayload stamps payloads with the machine's clock (what the real PrepareProposal handler does)
+	// instead of the simulated block time
+	WallClockPayloads bool
 	LockingParams func(*lockingtypes.Params) // further overrides
 	Tokens        []TokenSpec                // default: goat(weight 1, threshold 1e18), btc/native(weight 12000, threshold 0)
 	RewardRemain  *big.Int                   // RewardPool.Remain at genesis (default 0)
